@@ -11,6 +11,7 @@ import (
 	"sort"
 	"strconv"
 	"strings"
+	"sync"
 	"time"
 
 	"golang.org/x/tools/go/ssa"
@@ -347,35 +348,14 @@ func (cc *checkCtx) verifyFn(name string, fn *ssa.Function) {
 	}
 	rs := discharge(x, res, cc.workDir, cc.timeoutS, noRetry)
 	rep.Obligations = len(rs)
+	if cc.tier == "thorough" {
+		cc.crossCheck(rs)
+	}
 	for _, r := range rs {
 		cc.nObl++
 		cc.solverS += r.Ans.Time
 		s := sample{Obligation: r.O.Name, Kind: r.O.Kind, Answer: r.Ans.Status, Solver: r.Ans.Solver, TimeS: round3(r.Ans.Time), VCBytes: len(r.Script), Source: trunc(r.O.Src, 200)}
 		cc.samples = append(cc.samples, s)
-		if r.Ans.Status == "unsat" && cc.tier == "thorough" && r.Ans.Solver != "trivial" && r.Script != "" {
-			// thorough: every discharged obligation is put to the other solvers as well; a second
-			// independent `unsat` is counted as a cross-check, a `sat` from any solver overrides
-			confirmed := 1
-			for _, sv := range solvers {
-				if sv.name == r.Ans.Solver {
-					continue
-				}
-				a2 := runSolvers(r.Script, cc.workDir, r.O.Name+"#x-"+sv.name, cc.timeoutS/2, []string{sv.name})
-				cc.solverS += a2.Time
-				if a2.Status == "unsat" {
-					confirmed++
-				} else if a2.Status == "sat" {
-					r.Ans = a2
-					confirmed = 0
-					break
-				}
-			}
-			if confirmed >= 2 {
-				cc.crossChecked++
-			} else if confirmed == 1 {
-				cc.singleSolver = append(cc.singleSolver, r.O.Name)
-			}
-		}
 		if r.Ans.Status == "unsat" {
 			cc.nDis++
 			rep.Discharged++
@@ -639,4 +619,54 @@ func stableObligationName(o string) bool {
 		return false // second, third ... occurrence: ordinal-dependent
 	}
 	return strings.HasPrefix(rest, "calls:")
+}
+
+// crossCheck (thorough tier): every discharged obligation is put to the other two solvers on
+// their own (in parallel, 10 s each). A second independent `unsat` counts as a cross-check, a
+// `sat` from any solver overrides the first answer; obligations only one solver could discharge
+// are named in the evidence.
+func (cc *checkCtx) crossCheck(rs []*OblResult) {
+	var wg sync.WaitGroup
+	var mu sync.Mutex
+	sem := make(chan struct{}, 5)
+	for _, r := range rs {
+		if r.Ans == nil || r.Ans.Status != "unsat" || r.Ans.Solver == "trivial" || r.Script == "" {
+			continue
+		}
+		wg.Add(1)
+		go func(r *OblResult) {
+			defer wg.Done()
+			sem <- struct{}{}
+			defer func() { <-sem }()
+			confirmed := 1
+			var t float64
+			var override *SolverAnswer
+			for _, sv := range solvers {
+				if sv.name == r.Ans.Solver {
+					continue
+				}
+				a2 := runSolvers(r.Script, cc.workDir, r.O.Name+"#x-"+sv.name, 10, []string{sv.name})
+				t += a2.Time
+				if a2.Status == "unsat" {
+					confirmed++
+				} else if a2.Status == "sat" {
+					override = a2
+					break
+				}
+			}
+			mu.Lock()
+			defer mu.Unlock()
+			cc.solverS += t
+			switch {
+			case override != nil:
+				r.Ans = override
+			case confirmed >= 2:
+				cc.crossChecked++
+			default:
+				cc.singleSolver = append(cc.singleSolver, r.O.Name)
+			}
+		}(r)
+	}
+	wg.Wait()
+	sort.Strings(cc.singleSolver)
 }
